@@ -1,7 +1,7 @@
 """C03 — each transport framing builds the spec ADU and round-trips messages (structural rules)."""
 import ast
 
-from ..common import Ctx, U, AnalysisError, callee_name, annotate, ret_expr, Poly, NotInt
+from ..common import is_const, Ctx, U, AnalysisError, callee_name, annotate, ret_expr, Poly, NotInt
 from ..layout import Writer, normalise, rename_rep, select, show, Seq, length, fsize
 from ..framermodel import FRAMER_CLASSES, instance_constants, framer_paths
 from ..msgtables import table, code_of
@@ -129,10 +129,22 @@ def r2_agreement(ck, cx, builds):
         elif kind in ('ascii', 'binary'):
             # header len = index of the end delimiter = total - len(end)
             cf = cx.method(cls, 'checkFrame')
-            src_ok = any(isinstance(n, ast.Assign) and U(n.targets[0]) == "self._header['len']" and isinstance(n.value, ast.Name) for n in ast.walk(cf.node))
-            ends = [n for n in ast.walk(cf.node) if isinstance(n, ast.Assign) and isinstance(n.value, ast.Call) and callee_name(n.value) == 'find'
-                    and U(n.value.args[0]) == 'self._end']
-            ck.ob('R2', cf.qn, "header 'len' is the index of the end delimiter", src_ok and bool(ends), detail='header-len-source', loc=cx.floc(cf))
+            from ..common import annotated_copy
+            src_ok, nacc = True, 0
+            for pp in cx.enum(cf, cls, max_depth=1):
+                if pp.exit and pp.exit[0] == 'exc':
+                    continue
+                q, stq = annotated_copy(pp, heap=True, versioned=('self._buffer',))
+                r_ = ret_expr(q)
+                if r_ is None or is_const(r_, False):
+                    continue
+                nacc += 1
+                hv = stq.heap.get("self._header['len']")
+                cur = 'buffer_v%d' % stq.versioned.get('self._buffer', 0)
+                src_ok = src_ok and isinstance(hv, ast.Call) and callee_name(hv) == 'find' and U(hv.func.value) == cur \
+                    and len(hv.args) == 1 and U(hv.args[0]) == 'self._end'
+            ck.ob('R2', cf.qn, "header 'len' is the index of the end delimiter in the buffer as checkFrame leaves it", src_ok and nacc > 0,
+                  detail='header-len-source', loc=cx.floc(cf))
             meaning = total - Poly.const(endlen) if total is not None else None
         elif kind == 'rtu':
             meaning = total          # calculateRtuFrameSize: decided by R3
